@@ -429,13 +429,13 @@ func (in *interp) node(n *Node, env *Env, parent string) {
 // invoked with one string argument (function name hash normalised to HASH).
 func ScriptCallText(st *ScriptTemplate, arg string) string {
 	b, _ := json.Marshal(arg)
-	return "__templ_" + st.Name + "_HASH(" + string(b) + ")"
+	return "__templ_" + st.Name + "_HASH(" + string(b) + []string{"", `,"k"`, `,"k"`, ",7"}[st.Sig] + ")"
 }
 
 func (in *interp) emitScriptDef() {
 	e := in.e
 	e.atom(Atom{Kind: "start", Name: "script"})
-	e.words("function __templ_"+in.p.Script.Name+"_HASH(x){"+in.p.Script.Body+"\n}", true)
+	e.words("function __templ_"+in.p.Script.Name+"_HASH("+[]string{"x", "x, y", "x, y", "x, y"}[in.p.Script.Sig]+"){"+in.p.Script.Body+"\n}", true)
 	e.atom(Atom{Kind: "end", Name: "script"})
 }
 
